@@ -381,6 +381,21 @@ def glob_from_tree(rng, node, tree_wildcards=True):
             pieces.append('[' + c[0] + ']' + lit(c[1:]))
         else:
             pieces.append(lit(c))
+    # branches that contain a separator: two components in one alternation branch / a component and its separator in a repetition
+    joined = []
+    i = 0
+    while i < len(pieces):
+        x = rng.random()
+        if i + 1 < len(pieces) and x < 0.15:
+            joined.append('{' + pieces[i] + '/' + pieces[i + 1] + ',zz}')
+            i += 2
+        elif i + 1 < len(pieces) and x < 0.25 and '*' not in pieces[i]:
+            joined.append('<' + pieces[i] + '/:1,2>' + pieces[i + 1])
+            i += 2
+        else:
+            joined.append(pieces[i])
+            i += 1
+    pieces = joined
     if tree_wildcards and rng.random() < 0.5:
         i = rng.randint(0, len(pieces))
         j = rng.randint(i, len(pieces))
